@@ -50,6 +50,9 @@ PROPS = {
                 rule="a run = a pool of up to 6 live objects of one family (27 family/type instantiations, tracking allocator with arenas, instrumented items for the generic sketches) and an interleaving of construct, update, copy/move construct, copy/move assign, self assign, self move-assign, assignment chains, merge by reference and by move, query, serialize->deserialize into the pool, reset, destroy; per-object expected observation; non-trivial = at least one copy/move/assign/merge/restore; distinct = distinct plan hash"),
     "C09": dict(level="exploration", units=[("store_d", "c09d", 6, 2400, 60000), ("store_q", "c09q", 5, 2000, 50000), ("store_m", "c09m", 5, 2000, 50000)],
                 rule="a run = one seeded history (feed/merge/reset, checkpoints through either API with header/chunk/trailing/torn/lost faults, crashes with recovery from the log) over one family and configuration; non-trivial = executed at least one checkpoint round-trip or fault; distinct = distinct plan hash"),
+    "C10": dict(level="exploration", units=[("skew_d", "c10d", 3, 1500, 40000, "base_d"), ("skew_q", "c10q", 3, 1500, 40000, "base_q"), ("skew_m", "c10m", 3, 1500, 40000, "base_m"),
+                                              ("base_d", "c10d", 2, 1500, 40000, "skew_d"), ("base_q", "c10q", 2, 1500, 40000, "skew_q"), ("base_m", "c10m", 3, 1500, 40000, "skew_m")],
+                rule="a run = one seeded plan (family, configuration, history with checkpoints in every format variant) executed by BOTH the frozen baseline build (/verif/baseline = pinned commit + hook) and the current build; each side dumps image + what it reads back from it; the other side must read every image to the same version-stable observation (upgrade: skew_* reads base_* dumps; downgrade: base_* reads skew_* dumps), plus documented serial-version / family-id bytes and the 15 shipped reference images read identically by both versions; non-trivial = at least one peer image read; distinct = distinct plan hash"),
     "C11": dict(level="fault_enumeration", units=[("store_d", "c11d", 6, 120, 6000), ("store_q", "c11q", 5, 100, 5000), ("store_m", "c11m", 5, 100, 5000)],
                 rule="a run = one sampled valid image (family, variant, configuration, seeded history) whose fault space is enumerated completely: every strict prefix x {bytes, stream} and every byte of the first 64 x 8 replacement values x {bytes, stream}; non-trivial = at least one fault executed; distinct = distinct plan hash (image)"),
 }
@@ -64,7 +67,7 @@ def log(*a):
 def tree_hash():
     h = hashlib.sha256()
     files = sorted(glob.glob(os.path.join(REPO, "*", "include", "*.h*")))
-    files += sorted(glob.glob(os.path.join(ROOT, "sim", "*.hpp"))) + sorted(glob.glob(os.path.join(ROOT, "worlds", "*.cpp"))) + sorted(glob.glob(os.path.join(ROOT, "worlds", "*.hpp"))) + [os.path.join(ROOT, "Makefile")]
+    files += sorted(glob.glob(os.path.join(ROOT, "sim", "*.hpp"))) + sorted(glob.glob(os.path.join(ROOT, "worlds", "*.cpp"))) + sorted(glob.glob(os.path.join(ROOT, "worlds", "*.hpp"))) + [os.path.join(ROOT, "Makefile")] + sorted(glob.glob(os.path.join(ROOT, "baseline", "*", "include", "*.h*")))
     for f in files:
         h.update(f.encode()); h.update(b"\0")
         with open(f, "rb") as fh:
@@ -120,14 +123,14 @@ def plan_to_replay(prop, plan_path, vio, seed, binary):
     return out
 
 
-def run_replay_file(bdir, rep):
+def run_replay_file(bdir, rep, env=None):
     tmpdir = os.path.join(ROOT, "build", "tmp")
     os.makedirs(tmpdir, exist_ok=True)
     pf = os.path.join(tmpdir, "replay-%d.plan" % os.getpid())
     with open(pf, "w") as f:
         f.write("fingerprint %s\n" % rep["fingerprint"])
         f.write("\n".join(rep["plan"]) + "\n")
-    r = subprocess.run([os.path.join(bdir, rep["binary"]), "replay", "--plan", pf], stdout=subprocess.PIPE, stderr=subprocess.DEVNULL, text=True)
+    r = subprocess.run([os.path.join(bdir, rep["binary"]), "replay", "--plan", pf], stdout=subprocess.PIPE, stderr=subprocess.DEVNULL, text=True, env=env)
     os.unlink(pf)
     verdict = None
     for ln in r.stdout.splitlines():
@@ -143,8 +146,30 @@ def run_replay_file(bdir, rep):
 def cmd_replay(path):
     with open(path) as f:
         rep = json.load(f)
-    bdir = build([rep["binary"]])
-    rc, verdict = run_replay_file(bdir, rep)
+    if rep.get("kind") == "reference_image":
+        bdir = build(["skew_d", "skew_q", "skew_m", "base_d", "base_q", "base_m"])
+        refs = ":".join(sorted(glob.glob(os.path.join(REPO, "*", "test", "*.sk"))))
+        bad = 0
+        for g in "dqm":
+            pf = os.path.join(ROOT, "build", "tmp", "refdump.%s.%d" % (g, os.getpid())); os.makedirs(os.path.dirname(pf), exist_ok=True)
+            subprocess.run([os.path.join(bdir, "base_" + g), "dump", "--world", "c10" + g, "--count", "0", "--out", pf, "--refs", refs], stderr=subprocess.DEVNULL)
+            envr = dict(os.environ); envr["DSIM_PEER_FILE"] = pf
+            r = subprocess.run([os.path.join(bdir, "skew_" + g), "refs"], stdout=subprocess.PIPE, stderr=subprocess.DEVNULL, text=True, env=envr)
+            bad += sum(1 for ln in r.stdout.splitlines() if rep["file"] in ln and '"ok":false' in ln)
+            os.unlink(pf)
+        if bad:
+            print("VIOLATION property=%s replay=%s" % (rep["property"], path)); return 1
+        print("replay does not fail on this tree"); return 0
+    env = None
+    if rep.get("peer_binary"):
+        bdir = build([rep["binary"], rep["peer_binary"]])
+        pf = os.path.join(ROOT, "build", "tmp", "peer-%d.dump" % os.getpid()); os.makedirs(os.path.dirname(pf), exist_ok=True)
+        subprocess.run([os.path.join(bdir, rep["peer_binary"]), "dump", "--world", rep["world"], "--seed", str(rep["verif_seed"]), "--from", str(rep["run_index"]), "--count", "1",
+                        "--tier", "0" if rep.get("tier", "quick") == "quick" else "1", "--out", pf], stderr=subprocess.DEVNULL)
+        env = dict(os.environ); env["DSIM_PEER_FILE"] = pf
+    else:
+        bdir = build([rep["binary"]])
+    rc, verdict = run_replay_file(bdir, rep, env)
     print(json.dumps(verdict))
     if rc == 1:
         print("VIOLATION property=%s replay=%s" % (rep["property"], path))
@@ -176,13 +201,42 @@ def cmd_check(prop, tier):
             if k.get("status") == "known" and k.get("property") == prop:
                 kf.write(k["fingerprint"] + "\n")
     cap = 60 if tier == "quick" else 1500
-    for (binary, world, share, qruns, truns) in units:
+    peer_files = {}
+    if any(len(u) > 5 for u in units):      # version-skew: the peer build writes its records first
+        refs = ":".join(sorted(glob.glob(os.path.join(REPO, "*", "test", "*.sk"))))
+        dumps = []
+        for u in units:
+            count = u[3] if tier == "quick" else u[4]
+            pf = os.path.join(outdir, "dump.%s.%s" % (u[5], u[1]))
+            peer_files[(u[0], u[1])] = pf
+            parts = []
+            for part in range(4):
+                lo, hi = part * count // 4, (part + 1) * count // 4
+                ppath = pf + ".%d" % part
+                cmdp = [os.path.join(bdir, u[5]), "dump", "--world", u[1], "--seed", str(seed), "--from", str(lo), "--count", str(hi - lo), "--tier", "0" if tier == "quick" else "1", "--out", ppath]
+                if part == 0:
+                    cmdp += ["--refs", refs]
+                parts.append((ppath, subprocess.Popen(cmdp, stdout=subprocess.DEVNULL, stderr=subprocess.DEVNULL)))
+            dumps.append((pf, parts))
+        for pf, parts in dumps:
+            with open(pf, "w") as out:
+                for ppath, pr in parts:
+                    if pr.wait() != 0:
+                        log("dump failed:", ppath); harness_errors_pre = True
+                    if os.path.exists(ppath):
+                        with open(ppath) as f:
+                            out.write(f.read())
+    for u in units:
+        (binary, world, share, qruns, truns) = u[:5]
         nw = max(1, (WORKERS * share) // total_share)
         count = qruns if tier == "quick" else truns
+        envu = dict(os.environ)
+        if (binary, world) in peer_files:
+            envu["DSIM_PEER_FILE"] = peer_files[(binary, world)]
         for w in range(nw):
             cmd = [os.path.join(bdir, binary), "run", "--world", world, "--seed", str(seed), "--from", "0", "--count", str(count), "--stride", str(nw), "--offset", str(w),
                    "--tier", "0" if tier == "quick" else "1", "--out", outdir, "--max-seconds", str(cap), "--max-violations", "6", "--known-file", known_file]
-            procs.append((binary, world, w, subprocess.Popen(cmd, stdout=subprocess.PIPE, stderr=subprocess.DEVNULL, text=True)))
+            procs.append((binary, world, w, subprocess.Popen(cmd, stdout=subprocess.PIPE, stderr=subprocess.DEVNULL, text=True, env=envu)))
     stats = dict(runs=0, steps=0, nontrivial=0, checks=0, faults={}, probes={})
     violations, nondet, samples, truncated, harness_errors = [], [], [], 0, 0
     for (binary, world, w, p) in procs:
@@ -228,7 +282,10 @@ def cmd_check(prop, tier):
                 plan_hashes.add(ph); trace_hashes.add(th)
     # determinism recheck: the same run indices, executed twice in-process by `trace`, in two separate processes
     det_runs, det_mismatch = 0, 0
-    for (binary, world, share, qruns, truns) in units:
+    for u in units:
+        (binary, world, share, qruns, truns) = u[:5]
+        if len(u) > 5:
+            continue      # the peer file is part of the input of these worlds; their determinism is gated in-run (re-execution) and by fresh-process replay
         n = max(8, (qruns if tier == "quick" else truns) // (40 if tier == "quick" else 100))
         outs = []
         for rep_i in range(2):
@@ -240,8 +297,31 @@ def cmd_check(prop, tier):
         a, b = outs[0].splitlines(), outs[1].splitlines()
         det_runs += min(len(a), len(b))
         det_mismatch += sum(1 for x, y in zip(a, b) if x != y) + sum(1 for x in a if "MISMATCH" in x) + abs(len(a) - len(b))
+    ref_results = []
+    for (b, wname), pf in sorted(peer_files.items()):
+        if not b.startswith("skew_"):
+            continue
+        envr = dict(os.environ); envr["DSIM_PEER_FILE"] = pf
+        r = subprocess.run([os.path.join(bdir, b), "refs"], stdout=subprocess.PIPE, stderr=subprocess.DEVNULL, text=True, env=envr)
+        for ln in r.stdout.splitlines():
+            try:
+                j = json.loads(ln)
+            except ValueError:
+                continue
+            if j.get("type") == "ref":
+                ref_results.append(j)
     known = load_known()
     reported, known_hit, exit_code = [], [], 0
+    for j in ref_results:
+        if not j["ok"]:
+            os.makedirs(os.path.join(ROOT, "replays"), exist_ok=True)
+            rp = os.path.join(ROOT, "replays", "%s-ref-%s.json" % (prop, j["file"]))
+            with open(rp, "w") as f:
+                json.dump(dict(property=prop, kind="reference_image", file=j["file"], family=j["family"], detail=j["detail"]), f, indent=1)
+            print("VIOLATION property=%s replay=%s" % (prop, rp))
+            print("  shipped reference image %s is read differently than by the baseline: %s" % (j["file"], j["detail"][:300]))
+            reported.append(dict(fingerprint="C10|reference-image|" + j["file"], replay=rp, detail=j["detail"][:300]))
+            exit_code = 1
     if nondet or det_mismatch or harness_errors:
         for n in nondet:
             log("NONDETERMINISM", json.dumps(n))
@@ -252,7 +332,13 @@ def cmd_check(prop, tier):
         rep_path = plan_to_replay(prop, v["plan_file"], v, seed, v["binary"])
         with open(rep_path) as f:
             rep = json.load(f)
-        rc, verdict = run_replay_file(bdir, rep)     # fresh process
+        renv = None
+        if (v["binary"], v["world"]) in peer_files:
+            renv = dict(os.environ); renv["DSIM_PEER_FILE"] = peer_files[(v["binary"], v["world"])]
+            rep["peer_binary"] = [u[5] for u in units if u[0] == v["binary"] and u[1] == v["world"]][0]; rep["tier"] = tier
+            with open(rep_path, "w") as f:
+                json.dump(rep, f, indent=1)
+        rc, verdict = run_replay_file(bdir, rep, renv)     # fresh process
         if rc != 1:
             log("violation did not reproduce in a fresh process: %s (rc=%s, got %s)" % (v["fingerprint"], rc, verdict))
             exit_code = 2
@@ -278,7 +364,7 @@ def cmd_check(prop, tier):
                             simulated_time="n/a - no clock in the code under test; logical steps are reported instead",
                             faults_fired=stats["faults"], probes=stats["probes"], distinct_state_fingerprints=len(trace_hashes), distinct_plans_counted="exact set of 64-bit plan hashes",
                             components=COMPONENTS, determinism_recheck=dict(runs=det_runs, mismatches=det_mismatch, in_run_gate_failures=len(nondet)),
-                            workers=len(procs), budget_truncated_workers=truncated, known_findings_hit=sorted(set(known_hit)), reported=reported, repo=REPO, build=os.path.basename(bdir)),
+                            workers=len(procs), budget_truncated_workers=truncated, reference_images_checked=len(ref_results), known_findings_hit=sorted(set(known_hit)), reported=reported, repo=REPO, build=os.path.basename(bdir)),
               assumptions=["sampled histories/images: a clean batch is evidence, not proof", "x86-64, g++ 12, libstdc++, ASan + selected UBSan checks at -O1",
                            "the harness's reference models and independent hashes are correct (hash self-test against published vectors at start-up)"])
     os.makedirs(os.path.join(ROOT, "evidence"), exist_ok=True)
